@@ -559,7 +559,12 @@ func (dsc *dataStoreCommand) bitfieldWrite(keyName string, ops []*bitfieldOp) (o
 		if op.op == BF_GET {
 			continue
 		}
+		// offsets come from the client; redis limits a string to 512MB (2^32 bits)
 		n := op.endOffset
+		if op.bitOffset < 0 || n < op.bitOffset || n >= maxStringLength*8 {
+			output.data = respErrorString("ERR bit offset is not an integer or out of range")
+			return
+		}
 		if n > length {
 			length = n
 		}
